@@ -418,6 +418,7 @@ func checkC07(w *World, r *Report) {
 	ruleSpacers(w, r, "C07")
 	ruleComponentWidths(w, r, "C07")
 	ruleTermSize(w, r, "C07")
+	ruleWidthClamp(w, r, "C07")
 	ruleWriterNew(w, r, "C07")
 	ruleStatisticsFaithful(w, r, "C07")
 	ruleRenderSize(w, r, "C07")
